@@ -80,6 +80,28 @@ def r09a(ctx):
                               f"options: under -k/-l/--dict-strategy this format yields different node classes than the others, "
                               f"so equal data compares unequal (or at a different cost)")
     ctx.floor("R09a", n, 4, "json.build_tree calls on loader paths")
+    # the options object is the caller's: no loader substitutes defaults of its own (json.build_tree supplies the one
+    # shared default, BuildOptions() without arguments)
+    seen = set()
+    for q, info in sorted(fts.items()):
+        if info["name"] not in FORMATS:
+            continue
+        for f in loader_chain(m, m.method(q, "build_tree")) + [m.func(SHARED)]:
+            if f.qual in seen or "options" not in func_params(f.node):
+                continue
+            seen.add(f.qual)
+            for a in walk_no_nested(f.node):
+                tgts = a.targets if isinstance(a, ast.Assign) else ([a.target] if isinstance(a, (ast.AnnAssign, ast.AugAssign)) else [])
+                if any(isinstance(t, ast.Name) and t.id == "options" for t in tgts):
+                    v = a.value
+                    plain = f.qual == SHARED and isinstance(v, ast.Call) and (call_name(v) or "").endswith("BuildOptions") and not v.args and not v.keywords
+                    if plain:
+                        ctx.proved("R09a", f.file, f.short, a, "shared default options", "json.build_tree supplies BuildOptions() when none are given")
+                    else:
+                        ctx.violation("R09a", f.file, f.short, a, "loader substitutes its own options",
+                                      f"`{norm(a, 70)}` in {f.short} replaces the caller's options (or None) by a loader-specific value: this "
+                                      f"format then builds different node classes than the others for the same call, so the same data "
+                                      f"costs differently depending on its source format (a renamed key: 118 from plist, 4 from json)")
 
 
 def r09b(ctx):
@@ -244,6 +266,12 @@ def r09e(ctx):
                     return kind.get(e.id)
                 if isinstance(e, ast.Subscript) and classify(e.value) == "DOCS":
                     return "DOCS" if isinstance(e.slice, ast.Slice) else "DOC"
+                if isinstance(e, ast.IfExp):
+                    ks = {classify(e.body), classify(e.orelse)}
+                    return "DOC" if "DOC" in ks else ("DOCS" if "DOCS" in ks else None)     # may be a document
+                if isinstance(e, ast.BoolOp):
+                    ks = {classify(v) for v in e.values}
+                    return "DOC" if "DOC" in ks else ("DOCS" if "DOCS" in ks else None)
                 return None
             for _ in range(3):
                 for a in walk_no_nested(f.node):
